@@ -121,7 +121,10 @@ func propC17(a *Analysis, r *Registry) {
 		b.guard(rB, name+"/negated-domain", func() {
 			env := X.EnvFor(fn, "t", "level")
 			top := X.Under(fn, X.AssumeCond(env.MustParse("t.s.Min<0"), true))
-			n := 0
+			// stores of one element of ticks (possibly negated) into ticks, inside loops:
+			// mirror-negate ticks[i] = -ticks[len-1-i]; mirror-swap ticks[i] = ticks[len-1-i];
+			// negate-in-place ticks[i] = -ticks[i]
+			mirrorNeg, mirrorSwap, negInPlace, other := 0, 0, 0, 0
 			var ticks *RF
 			for _, fc := range top.BoundCallees(1) {
 				fc := fc
@@ -136,10 +139,12 @@ func propC17(a *Analysis, r *Registry) {
 					}
 					v := fc.Val(st.Val)
 					src := FindFn(v, "idx")
-					if len(src) != 1 {
+					if len(src) != 1 || !src[0].Args[0].Equal(fc.Val(ia.X)) {
 						return
 					}
-					if !v.Equal(S.atomRF(src[0].ID).Neg()) {
+					elem := S.atomRF(src[0].ID)
+					negated := v.Equal(elem.Neg())
+					if !negated && !v.Equal(elem) {
 						return
 					}
 					ticks = fc.Val(ia.X)
@@ -147,14 +152,29 @@ func propC17(a *Analysis, r *Registry) {
 					e := X.EnvFor(fn, "t", "level")
 					e.Set("ticks", ticks, nil)
 					// mirror positions: i + j == len(ticks)-1, syntactically or as a loop invariant of two counters
-					if src[0].Args[0].Equal(ticks) && fc.InvariantEq(i.Add(j), e.MustParse("len(ticks)-1")) {
-						n++
+					mirror := fc.InvariantEq(i.Add(j), e.MustParse("len(ticks)-1"))
+					switch {
+					case mirror && negated:
+						mirrorNeg++
+					case mirror:
+						mirrorSwap++
+					case negated && i.Equal(j):
+						if b.FullScan("C-scan coverage", name+"/negated-domain/negates-all", a.W.InstrPos(st), fc, i, e.MustParse("len(ticks)")) {
+							negInPlace++
+						} else {
+							other++
+						}
+					default:
+						other++
 					}
 				})
 			}
-			if n == 2 {
+			switch {
+			case mirrorNeg == 2 && mirrorSwap == 0 && negInPlace == 0 && other == 0:
 				r.OK(rB, name+"/negated-domain", b.pos(fn), "for negative domains ticks[i] and ticks[len-1-i] are exchanged and negated")
-			} else {
+			case mirrorNeg == 0 && mirrorSwap == 2 && negInPlace == 1 && other == 0:
+				r.OK(rB, name+"/negated-domain", b.pos(fn), "for negative domains every tick is negated and ticks[i], ticks[len-1-i] are exchanged")
+			default:
 				r.Fail(rB, name+"/negated-domain", b.pos(fn), "the reversal loop does not exchange and negate mirror positions")
 			}
 		})
